@@ -21,7 +21,7 @@ TARGETS = ['boltons.strutils.iter_splitlines', 'boltons.jsonutils.reverse_iter_l
            'boltons.jsonutils.JSONLIterator._init_rel_seek']
 BOUNDS = {
     'quick': {'iter_splitlines_text': 'len <= 3, all Unicode except \\x1c-\\x1e', 'file_items': '<= 5 items from {\\n, \\r (so also \\r\\n, lone and doubled \\r), ASCII, 2-byte, 3-byte char}',
-              'blocksize': 'every value 1..len(content)+1', 'jsonl_lines': '<= 4 from {object, blank, whitespace, corrupt}; block edge at every offset'},
+              'blocksize': 'every value 1..len(content)+1', 'jsonl_lines': '<= 3 from {object, array, blank, whitespace, cut-off JSON, invalid UTF-8 (binary mode)}; block edge at every offset'},
     'thorough': {'iter_splitlines_text': 'len <= 4', 'file_items': '<= 7'},
 }
 ASSUMPTIONS = ['line breaks per the statement: \\n \\r \\r\\n \\v \\f \\x85 \\u2028 \\u2029 (iter_splitlines); \\n and \\r\\n (reverse_iter_lines)',
@@ -142,27 +142,28 @@ def reverse_lines_law(n: int, c0: int, c1: int, c2: int, c3: int, c4: int, c5: i
 
 
 # ------------------------------------------------------------------ JSONLIterator
-LINES = ['{"a": %d}', '', '   ', '{"a": ', '[1, %d]']
+LINES = ['{"a": %d}', '', '   ', '{"a": ', '[1, %d]', '{"b": "\udcc3']     # the last one is written as the lone byte 0xC3: not UTF-8 (binary mode only)
 
 
 def _jsonl_body(classes, trailing_nl, crlf):
     nl = '\r\n' if crlf else '\n'
     lines = [(LINES[c] % i) if '%d' in LINES[c] else LINES[c] for i, c in enumerate(classes)]
     text = nl.join(lines) + (nl if trailing_nl and lines else '')
-    exp_strict_ok = not any(c == 3 for c in classes)
+    exp_strict_ok = not any(c in (3, 5) for c in classes)
+    bad_utf8 = any(c == 5 for c in classes)
     exp = []
     for i, c in enumerate(classes):
         if c == 0:
             exp.append({'a': i})
         elif c == 4:
             exp.append([1, i])
-    base = text.encode('utf-8')
+    base = text.encode('utf-8', 'surrogateescape')
     # pad in front with JSON whitespace so that the fixed 4096-byte block edge of the reverse reader
     # falls at every offset inside and between the lines
     pads = [0] + list(range(max(4096 - len(base) - 1, 0), 4096 + 2)) if pinval('edges', 1) else [0]
     for pad in pads:
         data = b' ' * pad + base
-        for mode in ('bytes', 'text'):
+        for mode in ('bytes',) if bad_utf8 else ('bytes', 'text'):
             def mk():
                 if mode == 'bytes':
                     return io.BytesIO(data)
@@ -196,7 +197,7 @@ def jsonl_law(n: int, c0: int, c1: int, c2: int, c3: int, trailing_nl: int, crlf
     post: _
     """
     n = cz(n, 0, pinval('nmax', 3))
-    classes = [cz(c, 0, 4) for c in [c0, c1, c2, c3][:n]]
+    classes = [cz(c, 0, 5) for c in [c0, c1, c2, c3][:n]]
     trailing_nl = cz(trailing_nl, 0, 1)
     crlf = pin('crlf', crlf, 0, 1)
     with notrace():
